@@ -206,6 +206,13 @@ def generate(rng, tier, boost):
                 decl = decl[:4]
             for d in decl:
                 cases.append((1503, [zero, d, txs]))
+            if 2 <= n <= 13:
+                # right after a block with root R over n transactions was built: R declared for another
+                # list of n transactions (reordered / one replaced) must be refused
+                cases.append((1503, [zero, root, txs]))
+                cases.append((1503, [zero, root, txs[::-1]]))
+                cases.append((1503, [zero, root, txs]))
+                cases.append((1503, [zero, root, txs[1:] + txs[:1]]))
             if n > 13:
                 continue
             # malformed: wrong lengths of the declared root / previous block hash
